@@ -160,7 +160,9 @@ FieldPlans(F, raw, small) ==
             {VMap(TRUE, FALSE, EmptyFn, ett, TRUE), VMap(FALSE, FALSE, [key \in {"k1"} |-> ab[1]], ett, FALSE)}
             \cup (IF small THEN {} ELSE {VMap(FALSE, TRUE, EmptyFn, ett, TRUE), VMap(FALSE, FALSE, EmptyFn, ett, FALSE),
                                           VMap(FALSE, FALSE, [key \in {"k1", "k2"} |-> IF key = "k1" THEN ab[2] ELSE ab[1]], ett, FALSE),
-                                          VMap(FALSE, FALSE, [key \in {"k1", "k2", "k3"} |-> IF key = "k2" THEN DecodedForm(NullOf(ett)) ELSE ab[1]], ett, FALSE)})
+                                          VMap(FALSE, FALSE, [key \in {"k1", "k2", "k3"} |-> IF key = "k2" THEN DecodedForm(NullOf(ett)) ELSE ab[1]], ett, FALSE),
+                                          \* an element that is unknown as a whole next to a known one
+                                          VMap(FALSE, FALSE, [key \in {"k1", "k2"} |-> IF key = "k2" THEN [DecodedForm(NullOf(ett)) EXCEPT !.null = FALSE, !.unk = TRUE] ELSE ab[1]], ett, FALSE)})
             \cup (IF raw /\ ~small THEN {VMap(TRUE, FALSE, [key \in {"k1"} |-> ab[1]], ett, FALSE)} ELSE {})
        [] OTHER -> \* obj
             LET S == MsgPlans(SubOf(F), raw /\ ~small, small)
